@@ -333,13 +333,36 @@ func (r *runner) doReq(st *Step) {
 		if sr != nil {
 			// 304s received in this exchange (foreground) or by its background
 			// revalidation freshen what is expected from now on
+			// a 304 that may not be stored (no-store on the request or on the 304)
+			// shows in this reply only
+			noStore := func(t304 string) bool {
+				for _, f := range st.Rq.Fl {
+					if f == "no-store" {
+						return true
+					}
+				}
+				return strings.Contains(strings.ToLower(strings.Join(w.tagHdr[t304].Values("Cache-Control"), ",")), "no-store")
+			}
 			for _, t304 := range e.fg304 {
-				w.apply304(tok, t304)
+				if !noStore(t304) {
+					w.apply304(tok, t304)
+				}
 			}
 			want = w.effHdr[tok].Clone()
+			for _, t304 := range e.fg304 {
+				if noStore(t304) {
+					for k, v := range w.tagHdr[t304] {
+						if k != "Content-Length" {
+							want[k] = v
+						}
+					}
+				}
+			}
 			// the background revalidation of this very exchange only affects later ones
 			for _, t304 := range w.bg304[x] {
-				w.apply304(tok, t304)
+				if !noStore(t304) {
+					w.apply304(tok, t304)
+				}
 			}
 			delete(w.bg304, x)
 			w.servedX[x] = tok
